@@ -7,4 +7,5 @@ for p in C01 C02 C03 C04 C05 C06 C07 C08 C09 C10 C11 C12 C13 C14 C15 C16 C17 C18
   echo "$out" | tail -1 | cut -c1-200
   if [ $rc -ne 0 ]; then fail=1; echo "$out" | grep -E "VIOLATION|UNDECIDED|MACHINERY|NOTE" | head -5 | cut -c1-300; fi
 done
+./check --selftest | tail -1; [ ${PIPESTATUS[0]} -ne 0 ] && fail=1
 exit $fail
